@@ -425,12 +425,12 @@ def statements_before(node, fn):
 
 
 def walk_shallow(fn):
-    """walk a function body without descending into nested defs/classes"""
-    stack = list(fn.body)
-    while stack:
-        n = stack.pop()
+    """walk a function body in source order without descending into nested defs/classes"""
+    def rec(n):
         yield n
         for c in ast.iter_child_nodes(n):
             if isinstance(c, (ast.FunctionDef, ast.AsyncFunctionDef, ast.ClassDef, ast.Lambda)):
                 continue
-            stack.append(c)
+            yield from rec(c)
+    for st in fn.body:
+        yield from rec(st)
